@@ -163,7 +163,12 @@ def accessors(chk, drv):
             r = np.random.RandomState(idx_seed + comm.Get_rank())
             idx = [int(r.randint(0, max(1, s))) for s in L.shape]
             out = {'coords': tolist(h.mpiCoords), 'idx': idx, 'errors': []}
-            out['global'] = tolist(g.getGlobalIndices(*idx))
+            # two answers of getGlobalIndices held at the same time (a table of local -> global indices built by the caller)
+            idx2 = [int(r.randint(0, max(1, s_))) for s_ in L.shape]
+            held = g.getGlobalIndices(*idx)
+            held2 = g.getGlobalIndices(*idx2)
+            out['global'] = tolist(held)
+            out['idx2'], out['global2'] = idx2, tolist(held2)
             out['idxvals'] = [tolist(g.getGlobalIdxVals(i)) for i in range(nd)]
             out['coordvals'] = [[float(x) for x in g.getCoordVals(i)] for i in range(nd)]
             out['getcoords'] = [[(int(a), float(b)) for a, b in g.getCoords(i)] for i in range(nd)]
@@ -210,8 +215,12 @@ def accessors(chk, drv):
             exp_glob = [None] * nd
             for i in range(nd):
                 exp_glob[ord_[i]] = o['idx'][i] + o['starts'][i]
-            if o['global'] != exp_glob:
-                chk.fail('C02:getGlobalIndices', 'getGlobalIndices disagrees with the partition', c, exp_glob, o['global'])
+            exp_glob2 = [None] * nd
+            for i in range(nd):
+                exp_glob2[ord_[i]] = o['idx2'][i] + o['starts'][i]
+            if o['global'] != exp_glob or o['global2'] != exp_glob2:
+                chk.fail('C02:getGlobalIndices', 'getGlobalIndices disagrees with the partition (two answers held at the same time)', dict(c, idx2=o['idx2']),
+                         [exp_glob, exp_glob2], [o['global'], o['global2']])
             if o['coordvals'] != exp_vals:
                 chk.fail('C02:getCoordVals', 'getCoordVals disagrees with the partition', c)
             if o['getcoords'] != [list(enumerate(v)) for v in exp_vals] and \
@@ -235,6 +244,61 @@ def accessors(chk, drv):
                  sample=dict(case, rank0=res.values()[0]['global']) if it == 0 else None)
         chk.count('accessor grids ranks=%d' % int(np.prod(nprocs)))
         chk.traces_validated += 1
+
+
+def accessors_swapper(chk):
+    """Grid accessors on grids that share a LayoutSwapper (the driver's phi / rho set-up): a grid created in a layout that is not on
+    the swapper's start handler, and the same grid after ANOTHER grid has moved the swapper's current manager elsewhere.  Oracle:
+    the block the grid's own current layout advertises."""
+    from pygyro.model.layout import LayoutSwapper
+    from pygyro.model.grid import Grid
+    from props import c03
+    rng = chk.rng
+    names = ['v_parallel_2d', 'mode_solve', 'v_parallel_1d', 'poloidal']
+    for it in range(chk.n(10, 80)):
+        p0, p1 = rng.choice([(2, 3), (3, 2), (2, 2), (1, 3), (3, 1), (2, 1)])
+        ext = [rng.randint(max(p0, p1), 7) for _ in range(3)]
+        eta = lu.eta_grids(ext)
+        start = rng.choice(names)
+        mine = rng.choice(names)
+        moves = [rng.choice(names) for _ in range(rng.randint(1, 3))]
+
+        def body():
+            comm = MPI.COMM_WORLD
+            sw = LayoutSwapper(comm, c03.DRIVER_GROUPS, [[p0, p1], p0, p1], eta, start)
+            g = Grid(eta, [None] * 3, sw, mine, comm, dtype=np.complex128)
+            other = Grid(eta, [None] * 3, sw, start, comm, dtype=np.complex128)
+            snaps = []
+            for step in [None] + moves:
+                if step is not None:
+                    other.setLayout(step)                  # moves the swapper's current manager; `g` is not touched
+                L = g.getLayout(g.currentLayout)
+                snaps.append({'starts': tolist(L.starts), 'ends': tolist(L.ends), 'order': tolist(L.dims_order),
+                              'idxvals': [tolist(g.getGlobalIdxVals(i)) for i in range(3)],
+                              'coordvals': [[float(x) for x in g.getCoordVals(i)] for i in range(3)],
+                              'global0': tolist(g.getGlobalIndices(0, 0, 0)) if min(L.shape) > 0 else None})
+            return snaps
+        res = lu.run_ranks(p0 * p1, body, policy='random', seed=it)
+        case = {'nprocs': [p0, p1], 'ext': ext, 'start': start, 'grid_layout': mine, 'other_grid_moves': moves}
+        if not res.ok:
+            chk.fail('C02:accessor-crash', 'accessors of a grid on a shared LayoutSwapper raised: ' + str(res.first_error())[:200], case)
+            continue
+        for rk, snaps in enumerate(res.values()):
+            for k, o in enumerate(snaps):
+                exp_idx = [list(range(a, b)) for a, b in zip(o['starts'], o['ends'])]
+                exp_val = [[float(eta[o['order'][i]][gi]) for gi in exp_idx[i]] for i in range(3)]
+                exp_g0 = None
+                if o['global0'] is not None:
+                    exp_g0 = [None] * 3
+                    for i in range(3):
+                        exp_g0[o['order'][i]] = o['starts'][i]
+                if o['idxvals'] != exp_idx or o['coordvals'] != exp_val or o['global0'] != exp_g0:
+                    chk.fail('C02:accessors-shared-swapper', 'accessors of a grid on a shared LayoutSwapper disagree with the block its current layout '
+                             'advertises (after %d layout changes of the OTHER grid)' % k, dict(case, rank=rk, after_moves=k),
+                             {'idxvals': exp_idx, 'global0': exp_g0}, {'idxvals': o['idxvals'], 'global0': o['global0']})
+                    break
+        chk.case(('accsw', p0, p1, tuple(ext), start, mine, tuple(moves)), nontrivial=p0 * p1 > 1)
+        chk.count('accessor checks on grids sharing a swapper')
 
 
 def exact_buffers(chk):
@@ -293,6 +357,7 @@ def run(chk):
         tables(chk, drv)
         layouts(chk, drv)
         accessors(chk, drv)
+        accessors_swapper(chk)
         exact_buffers(chk)
     finally:
         drv.close()
